@@ -363,6 +363,14 @@ int omp_get_dynamic(void) { return 0; }
 void omp_set_nested(int d) { (void)d; }
 int omp_get_nested(void) { return 0; }
 
+double omp_get_wtime(void) { static double t = 0; t += 1e-3; return t; }   /* simulated clock */
+double omp_get_wtick(void) { return 1e-3; }
+int omp_get_thread_limit(void) { return MAXT; }
+int omp_get_level(void) { return in_par ? 1 : 0; }
+int omp_get_active_level(void) { return in_par && team > 1 ? 1 : 0; }
+bool GOMP_single_start(void) { static long last_region = -1; if (!in_par || team == 1) return true;
+    if (last_region != g_regions) { last_region = g_regions; return true; } return false; }
+
 /* Synchronisation constructs: snapshot isolation would be unsound for a region
  * that relies on them, so they are recorded; the harness re-runs the call with
  * isolation off when g_sync_seen is set and says so in the evidence file. */
@@ -429,6 +437,28 @@ LOOP_NEXT(GOMP_loop_nonmonotonic_runtime_next)
 bool GOMP_loop_runtime_start(long s, long e, long i, long *a, long *b) { return dl_start(s, e, i, 1, a, b); }
 bool GOMP_loop_maybe_nonmonotonic_runtime_start(long s, long e, long i, long *a, long *b) { return dl_start(s, e, i, 1, a, b); }
 bool GOMP_loop_nonmonotonic_runtime_start(long s, long e, long i, long *a, long *b) { return dl_start(s, e, i, 1, a, b); }
+/* unsigned long long loop variables: same chunk dispenser (bounds used here are far below 2^63) */
+typedef unsigned long long gull;
+#define ULL_START(name) \
+    bool name(bool up, gull s, gull e, gull i, gull c, gull *a, gull *b) { long x, y; (void)up; \
+        bool r = dl_start((long)s, (long)e, (long)i, (long)c, &x, &y); *a = (gull)x; *b = (gull)y; return r; }
+#define ULL_NEXT(name) \
+    bool name(gull *a, gull *b) { long x, y; bool r = dl_next_chunk(&x, &y); *a = (gull)x; *b = (gull)y; return r; }
+ULL_START(GOMP_loop_ull_dynamic_start)
+ULL_START(GOMP_loop_ull_guided_start)
+ULL_START(GOMP_loop_ull_nonmonotonic_dynamic_start)
+ULL_START(GOMP_loop_ull_nonmonotonic_guided_start)
+ULL_NEXT(GOMP_loop_ull_dynamic_next)
+ULL_NEXT(GOMP_loop_ull_guided_next)
+ULL_NEXT(GOMP_loop_ull_nonmonotonic_dynamic_next)
+ULL_NEXT(GOMP_loop_ull_nonmonotonic_guided_next)
+ULL_NEXT(GOMP_loop_ull_runtime_next)
+ULL_NEXT(GOMP_loop_ull_maybe_nonmonotonic_runtime_next)
+bool GOMP_loop_ull_runtime_start(bool up, gull s, gull e, gull i, gull *a, gull *b) { long x, y; (void)up;
+    bool r = dl_start((long)s, (long)e, (long)i, 1, &x, &y); *a = (gull)x; *b = (gull)y; return r; }
+bool GOMP_loop_ull_maybe_nonmonotonic_runtime_start(bool up, gull s, gull e, gull i, gull *a, gull *b) { long x, y; (void)up;
+    bool r = dl_start((long)s, (long)e, (long)i, 1, &x, &y); *a = (gull)x; *b = (gull)y; return r; }
+
 void GOMP_loop_end(void) {
     if (in_par && team > 1) { if (--dl_refs <= 0) dl_active = 0; GOMP_barrier(); } else dl_active = 0;
 }
